@@ -80,27 +80,114 @@ theorem rename_id (M : List (String × Val)) (o n : String) (h : ∀ p ∈ M, p.
   have := h p hp
   simp [this]
 
+/-- renaming the keys of an association list by a function that fixes the key `n` and maps no other key to it -/
+theorem alistGet?_mapKey {β} (g : String → String) (n : String) (hg : ∀ k, g k = n ↔ k = n)
+    (l : List (String × β)) : alistGet? (l.map (fun p => (g p.1, p.2))) n = alistGet? l n := by
+  induction l with
+  | nil => rfl
+  | cons p rest ih =>
+    obtain ⟨k', v'⟩ := p
+    rw [List.map_cons]
+    by_cases h : k' = n
+    · subst h
+      have : g k' = k' := (hg k').mpr rfl
+      show alistGet? ((g k', v') :: _) k' = _
+      rw [this, alistGet?_cons_self, alistGet?_cons_self]
+    · have : g k' ≠ n := fun e => h ((hg k').mp e)
+      show alistGet? ((g k', v') :: _) n = _
+      rw [alistGet?_cons_ne _ _ _ _ this, alistGet?_cons_ne _ _ _ _ h, ih]
+
+theorem alistSet_mapKey {β} (g : String → String) (n : String) (hg : ∀ k, g k = n ↔ k = n)
+    (l : List (String × β)) (v : β) :
+    (alistSet l n v).map (fun p => (g p.1, p.2)) = alistSet (l.map (fun p => (g p.1, p.2))) n v := by
+  have hn : g n = n := (hg n).mpr rfl
+  induction l with
+  | nil => simp [alistSet, hn]
+  | cons p rest ih =>
+    obtain ⟨k', v'⟩ := p
+    by_cases h : k' = n
+    · subst h
+      simp [alistSet, hn]
+    · have : g k' ≠ n := fun e => h ((hg k').mp e)
+      simp [alistSet, h, this, ih]
+
+theorem renRes_eq_iff (n : String) (h1 : n ≠ "self") (h2 : n ≠ "type") (h3 : n ≠ "self_") (h4 : n ≠ "type_") :
+    ∀ k, renRes k = n ↔ k = n := by
+  intro k
+  unfold renRes
+  by_cases hk1 : k = "self"
+  · subst hk1; simp [h1.symm, h3.symm]
+  · by_cases hk2 : k = "type"
+    · subst hk2; simp [h2.symm, h4.symm]
+    · simp [hk1, hk2]
+
+theorem renRes_sofa : ∀ k, renRes k = "sofa" ↔ k = "sofa" :=
+  renRes_eq_iff "sofa" (by decide) (by decide) (by decide) (by decide)
+
+theorem renRes_id : ∀ k, renRes k = ID ↔ k = ID :=
+  renRes_eq_iff ID (by decide) (by decide) (by decide) (by decide)
+
+/-- the reader's two renamings, one after the other, are `renRes` -/
+theorem rename_rename (M : List (String × Val)) :
+    List.map (fun p => if (p.fst == "type") = true then ("type_", p.snd) else p)
+      (List.map (fun p => if (p.fst == "self") = true then ("self_", p.snd) else p) M) =
+    M.map (fun p => (renRes p.1, p.2)) := by
+  rw [List.map_map]
+  apply List.map_congr_left
+  intro p _
+  obtain ⟨k, v⟩ := p
+  simp only [Function.comp]
+  unfold renRes
+  by_cases h1 : k = "self"
+  · subst h1; rfl
+  · by_cases h2 : k = "type"
+    · subst h2; rfl
+    · simp [h1, h2]
+
+/-- the keyword arguments of the renamed attributes are the renamed keyword arguments -/
+theorem mergedOf_ren (A : List (String × String)) :
+    (mergedOf A).map (fun p => (renRes p.1, p.2)) = mergedOf (A.map (fun p => (renRes p.1, p.2))) := by
+  have hm : (A.map (fun p => (p.1, Val.str p.2))).map (fun p => (renRes p.1, p.2)) =
+      (A.map (fun p => (renRes p.1, p.2))).map (fun p => (p.1, Val.str p.2)) := by
+    rw [List.map_map, List.map_map]; rfl
+  unfold mergedOf
+  rw [alistGet?_mapKey renRes "sofa" renRes_sofa A]
+  cases alistGet? A "sofa" with
+  | none => exact hm
+  | some s =>
+    dsimp only
+    cases parseInt s with
+    | none => exact hm
+    | some i =>
+      dsimp only
+      rw [alistSet_mapKey renRes "sofa" renRes_sofa, hm]
+
+/-- the first pass on an element without child elements whose attributes `A` are written under the names `xmlName`:
+    the object is built from the attributes under their stored names (`renRes`) -/
 theorem parseFsElem_flat (K : Consts) (ts : TypeSystem) (tsIdx : Nat) (hp : Heap) (e : XElem) (t : TypeRec) (x : Int)
     (A : List (String × String))
     (ht : getType ts e.ty = .ok t) (hk : e.kids = []) (ha : e.attrs = (ID, showInt x) :: A)
-    (hkeys : ∀ p ∈ A, p.1 ≠ ID ∧ p.1 ≠ "self" ∧ p.1 ≠ "type" ∧ p.1 ∈ ctorFields t)
+    (hkeys : ∀ p ∈ A, p.1 ≠ ID ∧ renRes p.1 ∈ ctorFields t)
     (hsofa : ∀ s, alistGet? A "sofa" = some s → (parseInt s).isSome = true) :
-    parseFsElem K ts tsIdx hp e = .ok (hp ++ [objOf t tsIdx x A], x, hp.length) := by
+    parseFsElem K ts tsIdx hp e =
+      .ok (hp ++ [objOf t tsIdx x (A.map (fun p => (renRes p.1, p.2)))], x, hp.length) := by
   have hfil : List.filter (fun p => p.fst != ID)
       ((ID, Val.str (showInt x)) :: List.map (fun p => (p.fst, Val.str p.snd)) A) =
       A.map (fun p => (p.1, Val.str p.2)) := by
     rw [List.filter_cons_of_neg (by simp), filter_noId A (fun p hp => (hkeys p hp).1)]
-  have hkM : ∀ p ∈ mergedOf A, p.1 ≠ "self" ∧ p.1 ≠ "type" ∧ p.1 ∈ ctorFields t := by
+  have hkM : ∀ p ∈ mergedOf (A.map (fun p => (renRes p.1, p.2))), p.1 ∈ ctorFields t := by
     intro p hp
-    have : p.1 ∈ (mergedOf A).map (·.1) := List.mem_map_of_mem hp
-    rw [mergedOf_keys] at this
+    have : p.1 ∈ (mergedOf (A.map (fun p => (renRes p.1, p.2)))).map (·.1) := List.mem_map_of_mem hp
+    rw [mergedOf_keys, List.map_map] at this
     obtain ⟨q, hq, hqe⟩ := List.mem_map.mp this
     rw [← hqe]
     exact (hkeys q hq).2
   have hren : List.map (fun p => if (p.fst == "type") = true then ("type_", p.snd) else p)
-      (List.map (fun p => if (p.fst == "self") = true then ("self_", p.snd) else p) (mergedOf A)) = mergedOf A := by
-    rw [rename_id _ "self" "self_" (fun p hp => (hkM p hp).1), rename_id _ "type" "type_" (fun p hp => (hkM p hp).2.1)]
-  have hcon : construct t tsIdx (some x) (mergedOf A) = .ok (objOf t tsIdx x A) := by
+      (List.map (fun p => if (p.fst == "self") = true then ("self_", p.snd) else p) (mergedOf A)) =
+      mergedOf (A.map (fun p => (renRes p.1, p.2))) := by
+    rw [rename_rename, mergedOf_ren]
+  have hcon : construct t tsIdx (some x) (mergedOf (A.map (fun p => (renRes p.1, p.2)))) =
+      .ok (objOf t tsIdx x (A.map (fun p => (renRes p.1, p.2)))) := by
     unfold construct
     simp only
     rw [if_neg]
@@ -108,7 +195,7 @@ theorem parseFsElem_flat (K : Consts) (ts : TypeSystem) (tsIdx : Nat) (hp : Heap
     · simp only [List.any_eq_true, Bool.not_eq_true', not_exists, not_and, Bool.not_eq_false]
       intro p hp
       rw [List.contains_iff_mem, List.mem_eraseDups]
-      exact (hkM p hp).2.2
+      exact hkM p hp
   unfold parseFsElem
   rw [ht, hk, ha]
   simp only [groupKids, List.foldl_nil, List.map_cons, bind, Except.bind]
@@ -120,14 +207,14 @@ theorem parseFsElem_flat (K : Consts) (ts : TypeSystem) (tsIdx : Nat) (hp : Heap
   rw [alistGet?_mapStr]
   cases hs : alistGet? A "sofa" with
   | none =>
-    rw [mergedOf_none A hs] at hren hcon
+    rw [mergedOf_none A hs] at hren
     simp only [Option.map_none, hren, List.foldlM_nil, pure, Except.pure, hcon, ite_self]
   | some s =>
     have := hsofa s hs
     cases hi : parseInt s with
     | none => rw [hi] at this; cases this
     | some i =>
-      rw [mergedOf_some A s i hs hi] at hren hcon
+      rw [mergedOf_some A s i hs hi] at hren
       simp only [Option.map_some, parseIntE, hi, Except.map, hren, List.foldlM_nil, pure, Except.pure, hcon, ite_self]
 
 /-! ### lookups in the merged keyword arguments -/
@@ -173,6 +260,20 @@ theorem flatAttrs_keys (cass : List Cas) (H : Heap) (isAnn : Bool) (o : Obj) :
       · rw [List.mem_singleton] at h; rw [h]
       · cases h
     · obtain ⟨g, hg, hp⟩ := flatAttrs_keys cass H isAnn o fs p h
+      exact ⟨g, List.mem_cons_of_mem _ hg, hp⟩
+
+theorem flatAttrsW_keys (cass : List Cas) (H : Heap) (isAnn : Bool) (o : Obj) :
+    ∀ (fs : List Feature) (p : String × String), p ∈ flatAttrsW cass H isAnn o fs → ∃ f ∈ fs, p.1 = xmlName f
+  | [], p, h => by cases h
+  | f :: fs, p, h => by
+    unfold flatAttrsW at h
+    rw [List.mem_append] at h
+    rcases h with h | h
+    · refine ⟨f, List.mem_cons_self, ?_⟩
+      split at h
+      · rw [List.mem_singleton] at h; rw [h]
+      · cases h
+    · obtain ⟨g, hg, hp⟩ := flatAttrsW_keys cass H isAnn o fs p h
       exact ⟨g, List.mem_cons_of_mem _ hg, hp⟩
 
 theorem alistGet?_append_of_none {β} (l1 l2 : List (String × β)) (k : String) (h : alistGet? l1 k = none) :
